@@ -40,6 +40,7 @@ type E struct {
 	rootCfg   *ucfg.Config
 	envs      []map[string]*setting
 	envCfgs   []*ucfg.Config
+	envDup    bool // the last Env option passes the first Env config again
 	res       []*resolver
 	opts      []ucfg.Option // PathSep, VarExp, Env..., Resolve...
 	optsNoSep []ucfg.Option // the same without PathSep
@@ -373,6 +374,11 @@ func (e *E) Setup() {
 		}
 		e.envs = append(e.envs, l)
 	}
+	if nenv >= 2 && t.Chance(1, 4, "env-config-passed-again") {
+		// Env(a), Env(b), Env(a): the config passed again is the most recently added one
+		e.envs = append(e.envs, e.envs[0])
+		e.envDup = true
+	}
 	nres := t.Choose(4, "n-resolvers")
 	for i := 0; i < nres; i++ {
 		r := &resolver{store: map[string]string{}, anyErr: t.Bool("resolver-anyerr")}
@@ -496,7 +502,13 @@ func (e *E) build() {
 	}
 	e.opts = append([]ucfg.Option{}, e.baseOpts...)
 	e.envCfgs = nil
-	for _, l := range e.envs {
+	for i, l := range e.envs {
+		if e.envDup && i == len(e.envs)-1 {
+			e.R.Probe("varexp: one Env config passed twice (it is the most recent one)")
+			e.envCfgs = append(e.envCfgs, e.envCfgs[0])
+			e.opts = append(e.opts, ucfg.Env(e.envCfgs[0]))
+			continue
+		}
 		c, err := ucfg.NewFrom(e.layerToGo(l), ucfg.PathSep("."))
 		if err != nil {
 			panic("harness: env config: " + err.Error())
